@@ -85,6 +85,8 @@ func (o GOp) String() string {
 		c = " if{" + strings.Join(ks, ",") + "}"
 	}
 	switch o.Kind {
+	case "ManySessions":
+		return fmt.Sprintf("ManySessions(%d sessions on %s/%s/<i>, one byte each, abandoned)", o.GzN, o.Bucket, o.Name)
 	case "GetBucket":
 		return fmt.Sprintf("GetBucket(%s)", o.Bucket)
 	case "ClashRetry":
@@ -385,6 +387,25 @@ func (w *gcsWorld) step(o *GOp) (string, string) {
 		return w.stepUpload2(o)
 	case "ClashRetry":
 		return w.stepClashRetry(o)
+	case "ManySessions":
+		// o.GzN resumable sessions are opened, each receives one byte and is then abandoned: nothing is stored
+		for i := 0; i < o.GzN; i++ {
+			r := w.do(gcs.ReqResumableStart(o.Bucket, fmt.Sprintf("%s/%d", o.Name, i), o.Meta, nil))
+			if r.Panic != "" || r.Status != 200 {
+				return fail("status", "initiation %d: status %d %s", i, r.Status, r.Panic)
+			}
+			u, err := url.Parse(r.Header.Get("Location"))
+			if err != nil || u.Query().Get("upload_id") == "" {
+				return fail("session", "initiation %d: no usable session URL", i)
+			}
+			if c := w.do(gcs.ReqResumableChunk(u.RequestURI(), []byte("j"), "bytes 0-0/*", false, false)); c.Panic != "" || c.Status != 308 {
+				return fail("status", "first byte of session %d: status %d %s, want 308", i, c.Status, c.Panic)
+			}
+			if len(w.trace) > 6 {
+				w.trace = w.trace[len(w.trace)-6:]
+			}
+		}
+		return "", ""
 	case "Get":
 		rq := gcs.ReqGetMedia(o.Form, o.Bucket, o.Name)
 		if o.AcceptGzip {
